@@ -3,8 +3,10 @@
 package vtime
 
 import (
+	"context"
 	"sort"
 	"sync"
+	"sync/atomic"
 	"time"
 )
 
@@ -206,4 +208,49 @@ func Sleep(d Duration) {
 		return
 	}
 	Advance(d)
+}
+
+// deadlineCtx is a context whose deadline lies on the virtual clock.
+type deadlineCtx struct {
+	context.Context
+	deadline time.Time
+	fired    atomic.Bool
+}
+
+func (d *deadlineCtx) Deadline() (time.Time, bool) { return d.deadline, true }
+func (d *deadlineCtx) Err() error {
+	err := d.Context.Err()
+	if err != nil && d.fired.Load() {
+		return context.DeadlineExceeded
+	}
+	return err
+}
+
+// WithDeadline mirrors context.WithDeadline: with the virtual clock enabled the context ends, with
+// context.DeadlineExceeded, when the virtual clock reaches the deadline.
+func WithDeadline(parent context.Context, at time.Time) (context.Context, context.CancelFunc) {
+	mu.Lock()
+	en := enabled
+	mu.Unlock()
+	if !en {
+		return context.WithDeadline(parent, at)
+	}
+	inner, cancel := context.WithCancel(parent)
+	d := &deadlineCtx{Context: inner, deadline: at}
+	fire := func() {
+		if inner.Err() == nil {
+			d.fired.Store(true)
+		}
+		cancel()
+	}
+	if !at.After(Now()) {
+		fire()
+		return d, cancel
+	}
+	t := AfterFunc(at.Sub(Now()), fire)
+	return d, func() { t.Stop(); cancel() }
+}
+
+func WithTimeout(parent context.Context, d time.Duration) (context.Context, context.CancelFunc) {
+	return WithDeadline(parent, Now().Add(d))
 }
